@@ -164,6 +164,11 @@ theorem inv_step (fixed : Bool) {s : St} (h : Inv s) (op : Op) : Inv (step fixed
     split
     · exact h
     · exact inv_reload (inv_addDisk h) true
+  case genTorn =>
+    simp only [step]
+    split
+    · exact h
+    · exact inv_reload (inv_bump h) true
   case take =>
     simp only [step]
     split
@@ -251,6 +256,10 @@ theorem nonil_step {s : St} (h : NoNil s) (op : Op) :
   case genFailWrote => simp only [step]; split <;> exact ⟨h, by simp, rfl⟩
   case genNil => simp only [step]; split <;> exact ⟨h, by simp, rfl⟩
   case genCrash =>
+    simp only [step]; split
+    · exact ⟨h, by simp, rfl⟩
+    · exact ⟨nonil_reload _ _, by simp, rfl⟩
+  case genTorn =>
     simp only [step]; split
     · exact ⟨h, by simp, rfl⟩
     · exact ⟨nonil_reload _ _, by simp, rfl⟩
@@ -388,6 +397,12 @@ theorem never_nil (size : Nat) (ops : List Op) : Out.panic ∉ (run true size op
 /-- T1 tie: the tree's generator loop does return after a failed `Save` (extracted from
     pkg/generator/pool.go on every run), hence `never_nil` is about the code as it is. -/
 theorem source_returns_on_save_error : Gen.C39.returnsOnSaveError = true := by decide
+
+/-- T1 tie for the second repaired defect: `preParamsStorage.ReadAll` rejects files whose numbers
+    are missing (an empty file left by a crash during `Save` used to pass the nil-only tss-lib
+    validation and was served as an all-zero parameter; replay `ppool 1 9 gt,t,t`). The model's
+    `genTorn` step relies on it. -/
+theorem source_rejects_incomplete_files : Gen.C39.loadRejectsIncompleteFiles = true := by decide
 
 theorem never_nil_current (size : Nat) (ops : List Op) :
     Out.panic ∉ (run Gen.C39.returnsOnSaveError size ops).2.1 := by
